@@ -27,7 +27,7 @@
 (***************************************************************************)
 EXTENDS OVMB, Json, IOUtils
 
-CONSTANTS Mode,        \* "enc" (encodings), "mut" (mutants), "thm" (theorems only)
+CONSTANTS Mode,        \* "enc" (encodings), "mut" (mutants), "chunks" (chunk-level edits only), "thm" (theorems only)
           MaxPrefixLen, \* files up to this length get the exhaustive prefix theorem
           Pairs         \* TRUE: all pairs of choices, FALSE: single choices only
 
@@ -236,20 +236,33 @@ NumValues(b, f) ==
                                  <<0, 0, 0, 0, 0, 0, 0, 128>>, <<156, 255, 255, 255, 255, 255, 255, 255>>, FF(8)}
   IN ({LE(v, f.n) : v \in {x \in small : fits(x)}} \cup consts) \ {Slice(b, f.o, f.n)}
 
+(* chunk-level edits: every chunk dropped, duplicated, swapped with its successor, moved in front of  *)
+(* every other chunk (or behind the last one), the EOF chunk inserted before every earlier chunk.    *)
+(* Which orders are legal is decided by the reader machine of OVMB.tla (ApplyChunk): a VERT / TOPO   *)
+(* span must continue where the last span of its kind ended, an edge may only name vertices, a face  *)
+(* only halfedges, a cell only halffaces that EARLIER chunks delivered, a PROP chunk needs the        *)
+(* directory before it, nothing follows the EOF chunk; everything else may be interleaved freely.    *)
+ChunkMutants(b) ==
+  LET xs == ChunkExtents(b, HeaderSize + 1)
+      nx == Len(xs)
+      chunkBytes(i) == Slice(b, xs[i].o, xs[i].len)
+      range(lo, hi) == IF lo > hi THEN <<>> ELSE Slice(b, xs[lo].o, xs[hi].o + xs[hi].len - xs[lo].o)
+      eofs == {i \in DOMAIN xs : xs[i].type = TagEOF}
+  IN    {[k |-> "drop", at |-> xs[i].o, del |-> xs[i].len, ins |-> <<>>] : i \in DOMAIN xs}
+   \cup {[k |-> "dup", at |-> xs[i].o, del |-> 0, ins |-> chunkBytes(i)] : i \in DOMAIN xs}
+   \cup {[k |-> "swap", at |-> xs[i].o, del |-> xs[i].len + xs[i + 1].len, ins |-> chunkBytes(i + 1) \o chunkBytes(i)] : i \in 1 .. nx - 1}
+   \cup UNION {{[k |-> "move", at |-> xs[j].o, del |-> Len(range(j, i)), ins |-> chunkBytes(i) \o range(j, i - 1)] : j \in 1 .. i - 2} : i \in DOMAIN xs}
+   \cup UNION {{[k |-> "move", at |-> xs[i].o, del |-> Len(range(i, j)), ins |-> range(i + 1, j) \o chunkBytes(i)] : j \in i + 2 .. nx} : i \in DOMAIN xs}
+   \cup UNION {{[k |-> "eofmove", at |-> xs[j].o, del |-> 0, ins |-> chunkBytes(i)] : j \in 1 .. i - 1} : i \in eofs}
+
 Mutants(b) ==
   LET L == Layout(b)
       n == Len(b)
-      xs == L.chunks
-      chunkBytes(i) == Slice(b, xs[i].o, xs[i].len)
-      eofs == {i \in DOMAIN xs : xs[i].type = TagEOF}
   IN    {[k |-> "trunc", at |-> t + 1, del |-> n - t, ins |-> <<>>] : t \in 0 .. n - 1}
    \cup UNION {UNION {{[k |-> "byte", at |-> o, del |-> 1, ins |-> <<v>>] : v \in ByteValues(b[o])}
                       : o \in L.regions[r].o .. L.regions[r].o + L.regions[r].n - 1} : r \in DOMAIN L.regions}
    \cup UNION {{[k |-> "num", at |-> L.nums[f].o, del |-> L.nums[f].n, ins |-> v] : v \in NumValues(b, L.nums[f])} : f \in DOMAIN L.nums}
-   \cup {[k |-> "drop", at |-> xs[i].o, del |-> xs[i].len, ins |-> <<>>] : i \in DOMAIN xs}
-   \cup {[k |-> "dup", at |-> xs[i].o, del |-> 0, ins |-> chunkBytes(i)] : i \in DOMAIN xs}
-   \cup {[k |-> "swap", at |-> xs[i].o, del |-> xs[i].len + xs[i + 1].len, ins |-> chunkBytes(i + 1) \o chunkBytes(i)] : i \in 1 .. Len(xs) - 1}
-   \cup UNION {{[k |-> "eofmove", at |-> xs[j].o, del |-> 0, ins |-> chunkBytes(i)] : j \in 1 .. i - 1} : i \in eofs}
+   \cup ChunkMutants(b)
    \cup {[k |-> "append", at |-> n + 1, del |-> 0, ins |-> v] : v \in {<<0>>, FF(16), Slice(b, 1, Min2(n, 48))}}
 
 (* ------------------------------ theorems -------------------------------- *)
@@ -273,6 +286,11 @@ GenMut(k) ==
   /\ \A e \in M : PrintT(<<"MUT", ToJson([src |-> k, j |-> ln.j] @@ e)>>)
   /\ PrintT(<<"GENSTAT", k, "mutants", Cardinality(M)>>)
 
+GenChunks(k) ==
+  LET ln == Corpus[k]  b == ln.bytes  M == ChunkMutants(b) IN
+  /\ \A e \in M : PrintT(<<"MUT", ToJson([src |-> k, j |-> ln.j] @@ e)>>)
+  /\ PrintT(<<"GENSTAT", k, "mutants", Cardinality(M)>>)
+
 GenThm(k) ==
   LET ln == Corpus[k]  b == ln.bytes IN
   /\ (ParseFile(b).ok \/ PrintT(<<"GENBAD", k, "WriterFileInvalid", ParseFile(b).why>>))
@@ -286,7 +304,7 @@ Next ==
   /\ i <= Len(Corpus)
   /\ i' = i + 1
   /\ IF IsSource(Corpus[i])
-     THEN CASE Mode = "enc" -> GenEnc(i) [] Mode = "mut" -> GenMut(i) [] OTHER -> GenThm(i)
+     THEN CASE Mode = "enc" -> GenEnc(i) [] Mode = "mut" -> GenMut(i) [] Mode = "chunks" -> GenChunks(i) [] OTHER -> GenThm(i)
      ELSE TRUE
 Spec == Init /\ [][Next]_i
 Done == (i = Len(Corpus) + 1) => PrintT(<<"GENDONE", Len(Corpus)>>)
